@@ -45,6 +45,15 @@ pub fn autocorrect_of(w: &str, user: &HashMap<String, String>) -> Option<String>
     user.get(w).cloned().or_else(|| data().autocorrect.get(w).cloned())
 }
 
+/// Auto-correct values are Avro (Latin) text; a value already written in Bengali is used as it is.
+pub fn ac_value(v: &str) -> String {
+    if v.is_ascii() {
+        avro(v)
+    } else {
+        v.to_string()
+    }
+}
+
 pub fn analyse(text: &str, smart: bool, ansi: bool, user: &HashMap<String, String>) -> TextInfo {
     let (pre, word, trail) = ref_split(text, false);
     let (mut p, mut t) = (avro(&pre), avro(&trail));
@@ -52,7 +61,7 @@ pub fn analyse(text: &str, smart: bool, ansi: bool, user: &HashMap<String, Strin
         p = curl_open(&p);
         t = curl_close(&t);
     }
-    let ac_core = autocorrect_of(&word, user).map(|v| avro(&v));
+    let ac_core = autocorrect_of(&word, user).map(|v| ac_value(&v));
     let e = emoji();
     let mut emoji_cands = vec![];
     let mut is_emoticon = false;
@@ -143,7 +152,7 @@ pub fn classify(info: &TextInfo, cand: &str, user: &HashMap<String, String>) -> 
             if let Some(sbn) = d.suffix.get(s) {
                 for b in unjoin(core, sbn) {
                     let mut hit = false;
-                    if autocorrect_of(k, user).map(|v| avro(&v)).as_deref() == Some(b.as_str()) {
+                    if autocorrect_of(k, user).map(|v| ac_value(&v)).as_deref() == Some(b.as_str()) {
                         c.from_ac_base = true;
                         hit = true;
                     }
